@@ -12,7 +12,7 @@ import tempfile
 UTC = datetime.timezone.utc
 GEN = datetime.datetime(2020, 1, 2, 3, 4, 5, tzinfo=UTC)
 T1, T2 = datetime.datetime(2001, 1, 1, tzinfo=UTC), datetime.datetime(2002, 2, 2, tzinfo=UTC)
-SELECTORS = {None: lambda r: True, "r.n >= 2": lambda r: r.n >= 2, "r.n != 3 and has_field(r, 's')": lambda r: r.n != 3 and hasattr(r, "s"), "name(r) == 'c16/b' or r.n == 0": lambda r: r._desc.name == "c16/b" or r.n == 0,
+SELECTORS = {"r._source == None": lambda r: r._source is None, "r.t is not None": lambda r: True, "(r.t == 't1') == False": lambda r: getattr(r, "t", None) != "t1", None: lambda r: True, "r.n >= 2": lambda r: r.n >= 2, "r.n != 3 and has_field(r, 's')": lambda r: r.n != 3 and hasattr(r, "s"), "name(r) == 'c16/b' or r.n == 0": lambda r: r._desc.name == "c16/b" or r.n == 0,
              "r.nosuch == 1": lambda r: False, "r.n >= 1": lambda r: r.n >= 1, "'t' in r.t": lambda r: hasattr(r, "t") and "t" in r.t, "r.n in (0, 2, 4)": lambda r: r.n in (0, 2, 4), "any(x == r.n for x in (0, 2, 3, 5))": lambda r: r.n in (0, 2, 3, 5)}
 
 
